@@ -392,6 +392,48 @@ def lexer_classes(ctx):
     ctx.obligation(ok)
     if not ok:
         ctx.violation("lexer/flag/clauses", ctx.where("lexer::Lexer::next_lexem"), "`from` must end the select list and any WHERE context, `where` must start the WHERE context; found %s" % eff)
+    # the end of an unquoted token: space, comma, any bracket (round or curly, in every context) and the operator characters of
+    # the context.  The terminating condition of the RawString mode is found (an `if` that breaks the character loop and tests
+    # the character against ' ' and ',') and evaluated on every character x flag valuation.
+    terms = []
+    for x in walk_exprs(nh):
+        if x["k"] == "If" and diverges(x["t"]) and any(y["k"] == "Break" for y in walk_exprs(x["t"])):
+            lits = {y["v"] for y in walk_exprs(x["c"]) if y["k"] == "Lit" and y.get("lk") == "char"}
+            if " " in lits and "," in lits:
+                terms.append(x)
+    okt = len(terms) == 1
+    badt = None
+    if okt:
+        cond = terms[0]["c"]
+        ids = {}
+        for y in walk_exprs(cond):
+            if y["k"] == "Path" and y.get("rk") == "Local":
+                ids[y["res"]] = y.get("name")
+        for vals in itertools.product([False, True], repeat=4):
+            fl = dict(zip(flags, vals))
+            for c in chars:
+                env = {}
+                for i, nm in ids.items():
+                    env[i] = dict(fl, possible_search_root=False, input="ab") if nm == "self" else (c if nm == "c" else interp.Opaque(nm))
+                try:
+                    got = interp.Interp(prog=ctx.prog).ev(cond, env)
+                except interp.Undecided as e:
+                    badt = ("unreadable", "cannot evaluate the end-of-token condition: %s" % e)
+                    break
+                n += 1
+                want = c in " ,(){}" or (c in "=!<>~" and (fl["before_from"] or fl["after_where"]))
+                if got != want:
+                    badt = ("%s" % ("bracket" if c in "(){}" else "char"),
+                            "`%s` %s an unquoted token when %s: brackets of both styles, space, comma and the operator characters of the "
+                            "context end a token, nothing else does" % (c, "ends" if got else "does not end", {k: v for k, v in fl.items() if v} or "no context flag is set"))
+                    break
+            if badt:
+                break
+    ctx.obligation(okt and badt is None)
+    if not okt:
+        ctx.violation("lexer/token-end/anchor", ctx.where("lexer::Lexer::next_lexem"), "the end-of-token test of the unquoted mode (break on ' ', ',', bracket, operator character) was not found (%d candidates)" % len(terms))
+    elif badt:
+        ctx.violation("lexer/token-end/%s" % badt[0], ctx.where("lexer::Lexer::next_lexem", terms[0]), badt[1])
     ctx.covered("lexer character classes (is_op_char, is_arithmetic_op_char) evaluated on 96 characters x 16 flag valuations; context flag updates", n + 6,
                 distinct_keys=list(spec) + ["op-chars", "op-context", "flags"], exhaustive=True)
 
@@ -612,13 +654,19 @@ def pass_ignores_table(ctx):
     has_git = any(c["k"] == "MCall" and c["m"] == "is_path_ignored" for c in walk_exprs(pi[0]["init"]))
     tbl = {}
     asked = {"git": set(), "hg": set(), "docker": set()}
-    for ag, ah, ad, mg, mh, md, repo in itertools.product([False, True], repeat=7):
+    spelled = any(c["k"] == "MCall" and c["m"] in ("is_relative", "is_absolute", "has_root") for c in walk_exprs(pi[0]["init"]))
+    for ag, ah, ad, mg, mh, md, repo, rel in itertools.product([False, True], repeat=8):
         if not has_git and (mg or repo):
             continue
+        if rel and not spelled:
+            continue
 
-        def call(node, recv, args, it, env, mg=mg, mh=mh, md=md):
+        def call(node, recv, args, it, env, mg=mg, mh=mh, md=md, rel=rel):
             callee = str(node.get("callee", ""))
             m = node.get("m")
+            if m in ("is_relative", "is_absolute", "has_root") and recv == "<walked>":
+                # the walked path is spelled as the root was given: relative or absolute, canonical or not
+                return (rel if m == "is_relative" else not rel,)
             if callee.endswith("canonical_path"):
                 return (interp.V("Result::Ok", ["<canonical>"]),)
             if m == "is_path_ignored":
@@ -640,5 +688,7 @@ def pass_ignores_table(ctx):
             v = interp.eval_in(hir, pi[0]["init"], by, call=call)
         except interp.Undecided as e:
             return None, None, "cannot evaluate the ignore verdict: %s" % e
+        if (ag, ah, ad, mg, mh, md, repo) in tbl and tbl[(ag, ah, ad, mg, mh, md, repo)] != v:
+            return None, None, "the ignore verdict depends on how the walked path is spelled (relative / absolute)"
         tbl[(ag, ah, ad, mg, mh, md, repo)] = v
     return (tbl, asked, None), has_git, None
